@@ -37,12 +37,16 @@ def plan(tier: str, seed: int) -> list[dict]:
         shards.append({"kind": "residue", "first_octets": list(range(0, 256))})
         for k in range(4):
             shards.append({"kind": "random", "n": 5000, "part": k})
+        for k in range(6):
+            shards.append({"kind": "threads", "k": k})
     else:
         for k in range(16):
             shards.append({"kind": "steps", "first_octets": list(range(k * 16, k * 16 + 16))})
         shards.append({"kind": "residue", "first_octets": list(range(0, 256))})
         for k in range(15):
             shards.append({"kind": "random", "n": 40000, "part": k})
+        for k in range(40):
+            shards.append({"kind": "threads", "k": k})
     return shards
 
 
@@ -78,7 +82,48 @@ def check_step(F, a: int, b: int, c: int, reg_ab: int, ctx) -> None:
         ctx.count("good_three_octet_messages")
 
 
+def run_threads(shard, ctx) -> None:
+    """Threads released from a barrier make the first calls of this fresh interpreter at the same moment, then keep going."""
+    import sys
+    import threading
+
+    F = _cls()
+    rng = ctx.rng("threads", shard["k"])
+    n_threads = 6
+    work = [[rng.randbytes(rng.choice((1, 2, 3, 17, 64, 255, 300))) for _ in range(300)] for _ in range(n_threads)]
+    bad: list = []
+    barrier = threading.Barrier(n_threads)
+
+    def worker(items):
+        barrier.wait()
+        for data in items:
+            got = F.compute_checksum(data, 0, len(data))
+            o = F()
+            for b in data:
+                o.update(b)
+            if got != fcs16.fcs(data) or o.checksum != fcs16.fcs(data):
+                bad.append((data, got, o.checksum))
+
+    old = sys.getswitchinterval()
+    sys.setswitchinterval(1e-6)
+    try:
+        ts = [threading.Thread(target=worker, args=(w,)) for w in work]
+        for t in ts:
+            t.start()
+        for t in ts:
+            t.join()
+    finally:
+        sys.setswitchinterval(old)
+    ctx.count("checksums_in_concurrent_threads", n_threads * 300)
+    ctx.case(f"threads{shard['k']}", True, n_threads * 300)
+    for data, got, chk in bad[:3]:
+        ctx.violation("C03:differs-under-concurrent-threads", f"in {n_threads} threads at once (first calls of the process): compute_checksum({data.hex()[:40]}) = {got!r}, incremental checksum {chk!r}, model {fcs16.fcs(data):#06x}", {"kind": "random", "data": data})
+
+
 def run(shard: dict, ctx) -> None:
+    if shard.get("kind") == "threads":
+        run_threads(shard, ctx)
+        return
     F = _cls()
     kind = shard["kind"]
     if kind == "steps":
